@@ -160,6 +160,8 @@ class SiteInfoHistoryBase(abc.ABC):
             return None
         
         if date == "last":
+            if not self.history:
+                return None
             last_date_period = sorted(self.history.keys())[-1]
             return self.history[last_date_period]
         
